@@ -191,6 +191,65 @@ func (p *bprover) condFacts(cond ssa.Value, neg bool) (fs []dfact, ns []dneq, pa
 				fs = append(fs, dfact{"0", n, -1}) // n >= 1
 			}
 		}
+		// if !inRange(i, n) { return }: what a small predicate over integers says about them when it answers this way
+		if call, isCall := cond.(*ssa.Call); isCall && isBoolType(call.Type()) && !call.Call.IsInvoke() {
+			if cf := call.Call.StaticCallee(); cf != nil && firstParty(cf) && cf.Blocks != nil && len(cf.Blocks) <= 10 && cf.Signature.Results().Len() == 1 {
+				for i, a := range call.Call.Args {
+					if i >= len(cf.Params) || !isSignedInt(a.Type()) {
+						continue
+					}
+					la := p.lin(a)
+					if p.c.paramRelWhen(cf, -2, i, !neg, 0) { // 0 <= a
+						fs = append(fs, dfact{"0", la.n, la.k})
+					}
+					for j, b := range call.Call.Args {
+						if j == i || j >= len(cf.Params) || !isSignedInt(b.Type()) {
+							continue
+						}
+						lb := p.lin(b)
+						for _, off := range []int64{-1, 0} {
+							if p.c.paramRelWhen(cf, i, j, !neg, off) { // a - b <= off
+								fs = append(fs, dfact{la.n, lb.n, off - la.k + lb.k})
+								break
+							}
+						}
+					}
+				}
+			}
+		}
+		// if tooShort(msg) { return }: what a small predicate over a slice or string says about its length when it answers
+		// this way (the bound is looked for among the small constants such predicates compare with)
+		if call, isCall := cond.(*ssa.Call); isCall && isBoolType(call.Type()) && !call.Call.IsInvoke() {
+			if cf := call.Call.StaticCallee(); cf != nil && firstParty(cf) && cf.Blocks != nil && len(cf.Blocks) <= 8 {
+				for j, arg := range call.Call.Args {
+					if j >= len(cf.Params) {
+						break
+					}
+					switch arg.Type().Underlying().(type) {
+					case *types.Slice:
+					case *types.Basic:
+						if !isStringType(arg.Type()) {
+							continue
+						}
+					default:
+						continue
+					}
+					l := p.lenOf(arg)
+					for _, L := range []int64{4, 3, 2, 1} {
+						if p.c.lenBoundWhen(cf, j, L, !neg, true) {
+							fs = append(fs, dfact{"0", l.n, l.k - L}) // len >= L
+							break
+						}
+					}
+					for _, U := range []int64{0, 1, 2, 3} {
+						if p.c.lenBoundWhen(cf, j, U, !neg, false) {
+							fs = append(fs, dfact{l.n, "0", U - l.k}) // len <= U
+							break
+						}
+					}
+				}
+			}
+		}
 		// (first, last, ok := window(..); if ok { .. }): what the helper guarantees about its integer results, one against
 		// another and against the integers it was given, on the returns that hand back this truth value
 		if ex, isEx := cond.(*ssa.Extract); isEx && isBoolType(ex.Type()) {
@@ -208,6 +267,17 @@ func (p *bprover) condFacts(cond ssa.Value, neg bool) (fs []dfact, ns []dneq, pa
 						return n
 					}
 					for _, a := range ints {
+						// a range check inside the helper: the number handed back with this verdict is bounded
+						const big = int64(1) << 62
+						if p.c.resultRelWhenX(cf, a.Index, -2, -1, ex.Index, !neg, false, big) {
+							fs = append(fs, dfact{node(a), "0", big})
+						}
+						if p.c.resultRelWhenX(cf, -2, a.Index, -1, ex.Index, !neg, false, big) {
+							fs = append(fs, dfact{"0", node(a), big})
+						}
+						if p.c.resultRelWhenX(cf, -2, a.Index, -1, ex.Index, !neg, false, 0) {
+							fs = append(fs, dfact{"0", node(a), 0})
+						}
 						for _, b := range ints {
 							if a != b && p.c.resultRelWhen(cf, a.Index, b.Index, -1, ex.Index, !neg) {
 								fs = append(fs, dfact{node(a), node(b), 0})
@@ -231,6 +301,52 @@ func (p *bprover) condFacts(cond ssa.Value, neg bool) (fs []dfact, ns []dneq, pa
 			}
 		}
 		return
+	}
+	// n, errReply := parseIndex(arg, size); if errReply != nil { return errReply }: on the nil side, what the helper
+	// guarantees about its integer results on the returns that hand back nil
+	if bo.Op == token.EQL || bo.Op == token.NEQ {
+		var gx ssa.Value
+		if isNilConst(bo.Y) {
+			gx = bo.X
+		} else if isNilConst(bo.X) {
+			gx = bo.Y
+		}
+		if ex, ok := gx.(*ssa.Extract); ok && (bo.Op == token.EQL) != neg {
+			if call, ok := ex.Tuple.(*ssa.Call); ok && call.Referrers() != nil && !call.Call.IsInvoke() {
+				if cf := call.Call.StaticCallee(); cf != nil && firstParty(cf) && cf.Blocks != nil {
+					for _, r := range *call.Referrers() {
+						a, ok := r.(*ssa.Extract)
+						if !ok || !isSignedInt(a.Type()) {
+							continue
+						}
+						an := "v:" + a.Name()
+						p.vals[an] = a
+						if p.c.resultRelWhenX(cf, -2, a.Index, -1, ex.Index, true, true, 0) { // 0 <= a
+							fs = append(fs, dfact{"0", an, 0})
+						}
+						const big = int64(1) << 62
+						if p.c.resultRelWhenX(cf, a.Index, -2, -1, ex.Index, true, true, big) {
+							fs = append(fs, dfact{an, "0", big})
+						}
+						if p.c.resultRelWhenX(cf, -2, a.Index, -1, ex.Index, true, true, big) {
+							fs = append(fs, dfact{"0", an, big})
+						}
+						for j, arg := range call.Call.Args {
+							if j >= len(cf.Params) || !isSignedInt(arg.Type()) {
+								continue
+							}
+							l := p.lin(arg)
+							for _, off := range []int64{-1, 0} {
+								if p.c.resultRelWhenX(cf, a.Index, -1, j, ex.Index, true, true, off) { // a - arg <= off
+									fs = append(fs, dfact{an, l.n, off + l.k})
+									break
+								}
+							}
+						}
+					}
+				}
+			}
+		}
 	}
 	// parity tests: (x & 1) ==/!= k , (x % 2) ==/!= k
 	if bo.Op == token.EQL || bo.Op == token.NEQ {
@@ -2269,6 +2385,9 @@ func (c *C) callSitePre(fn *ssa.Function) []dfact {
 						all = false
 						break
 					}
+					if nonNegValue(call.Call.Args[i], map[ssa.Value]bool{}, 0) {
+						continue // non-negative by construction (a hash reduced modulo a length)
+					}
 					pc := c.newProver(call.Parent())
 					if !pc.ProveLE(lt{"0", 0}, pc.lin(call.Call.Args[i]), 0, call) {
 						all = false
@@ -3741,13 +3860,20 @@ func (c *C) resultLeResult(fn *ssa.Function, k1, k2 int) bool {
 // are left out; a computed boolean counts), x <= y holds, where x and y are result k1 / result k2 or, for the index given
 // as -1, parameter j.
 func (c *C) resultRelWhen(fn *ssa.Function, k1, k2, j, g int, want bool) bool {
+	return c.resultRelWhenX(fn, k1, k2, j, g, want, false, 0)
+}
+
+// resultRelWhenX: the general form. A side index of -1 is parameter j, -2 is the constant zero; what is shown is
+// x - y <= off. With nilGuard the returns considered are those whose result g is the nil constant (the success returns
+// of a helper that hands back (value, errReply)); `want` is ignored then.
+func (c *C) resultRelWhenX(fn *ssa.Function, k1, k2, j, g int, want bool, nilGuard bool, off int64) bool {
 	if fn == nil || fn.Blocks == nil || calleeProofDepth >= 2 {
 		return false
 	}
 	if c.rgpMemo == nil {
 		c.rgpMemo = map[string]int{}
 	}
-	key := fmt.Sprintf("%s|rel%d,%d,%d|%d=%v", fn.String(), k1, k2, j, g, want)
+	key := fmt.Sprintf("%s|rel%d,%d,%d|%d=%v|%v|%d", fn.String(), k1, k2, j, g, want, nilGuard, off)
 	switch c.rgpMemo[key] {
 	case 1:
 		return true
@@ -3762,41 +3888,78 @@ func (c *C) resultRelWhen(fn *ssa.Function, k1, k2, j, g int, want bool) bool {
 	for _, b := range fn.Blocks {
 		for _, in := range b.Instrs {
 			ret, ok := in.(*ssa.Return)
-			if !ok || len(ret.Results) <= g || len(ret.Results) <= k1 || len(ret.Results) <= k2 {
+			if !ok || len(ret.Results) <= g || len(ret.Results) <= k1 || len(ret.Results) <= k2 || (j >= 0 && j >= len(fn.Params)) {
 				continue
 			}
 			rr := retResults(ret)
 			skip := len(rr[g]) > 0
-			for _, gv := range rr[g] {
-				k, isC := gv.(*ssa.Const)
-				if !isC || k.Value == nil || (k.Value.ExactString() == "true") == want {
-					skip = false
+			var assume []dfact
+			if nilGuard {
+				// the returns that may hand back nil: a nil constant, or something that is not visibly a value
+				for _, gv := range rr[g] {
+					switch y := gv.(type) {
+					case *ssa.Const:
+						if y.Value == nil {
+							skip = false
+						}
+					case *ssa.MakeInterface, *ssa.Alloc:
+					case *ssa.Call:
+						if cf := y.Call.StaticCallee(); cf == nil || !strings.HasPrefix(cf.Name(), "Make") {
+							skip = false
+						}
+					default:
+						skip = false
+					}
+				}
+			} else {
+				for _, gv := range rr[g] {
+					k, isC := gv.(*ssa.Const)
+					if !isC || k.Value == nil || (k.Value.ExactString() == "true") == want {
+						skip = false
+					}
+				}
+				// return first, last, first <= last: the comparison handed back is what holds when it is true
+				if len(rr[g]) == 1 {
+					if _, isC := rr[g][0].(*ssa.Const); !isC {
+						assume, _, _ = pr.condFacts(rr[g][0], !want)
+						fsx := &factSet{par: map[string]int{}}
+						pr.boolPhiFacts(rr[g][0], !want, fsx, 0)
+						assume = append(assume, fsx.fs...)
+					}
 				}
 			}
 			if skip {
 				continue
 			}
-			// return first, last, first <= last: the comparison handed back is what holds when it is true
-			var assume []dfact
-			if len(rr[g]) == 1 {
-				if _, isC := rr[g][0].(*ssa.Const); !isC {
-					assume, _, _ = pr.condFacts(rr[g][0], !want)
-				}
-			}
+			zero := ssa.Value(nil)
 			side := func(k int) []ssa.Value {
-				if k < 0 {
+				switch {
+				case k == -2:
+					return []ssa.Value{zero}
+				case k < 0:
 					return []ssa.Value{fn.Params[j]}
 				}
 				return rr[k]
 			}
+			term := func(v ssa.Value) (lt, bool) {
+				if v == nil {
+					return lt{"0", 0}, true
+				}
+				if !isSignedInt(v.Type()) {
+					return lt{}, false
+				}
+				return pr.lin(v), true
+			}
 			for _, v1 := range side(k1) {
 				for _, v2 := range side(k2) {
-					if !isSignedInt(v1.Type()) || !isSignedInt(v2.Type()) {
+					t1, ok1 := term(v1)
+					t2, ok2 := term(v2)
+					if !ok1 || !ok2 {
 						res = false
 						continue
 					}
 					any = true
-					if !pr.ProveLEx(pr.lin(v1), pr.lin(v2), 0, ret, assume) {
+					if !pr.ProveLEx(t1, t2, off, ret, assume) {
 						res = false
 					}
 				}
@@ -3880,6 +4043,121 @@ func singleStoreCell(al *ssa.Alloc, load *ssa.UnOp) (ssa.Value, bool) {
 		return nil, false
 	}
 	return store.Val, true
+}
+
+// paramRelWhen: on every return of the boolean function fn that may hand back `want`, x - y <= off for integer parameters
+// i and j of fn (i == -2: the constant zero). A returned comparison is assumed to have the wanted outcome.
+func (c *C) paramRelWhen(fn *ssa.Function, i, j int, want bool, off int64) bool {
+	if fn == nil || fn.Blocks == nil || calleeProofDepth >= 2 || fn.Signature.Results().Len() != 1 {
+		return false
+	}
+	if c.rgpMemo == nil {
+		c.rgpMemo = map[string]int{}
+	}
+	key := fmt.Sprintf("%s|prm%d,%d|%v|%d", fn.String(), i, j, want, off)
+	switch c.rgpMemo[key] {
+	case 1:
+		return true
+	case 2, 3:
+		return false
+	}
+	c.rgpMemo[key] = 3
+	calleeProofDepth++
+	defer func() { calleeProofDepth-- }()
+	res, any := true, false
+	pr := c.newProver(fn)
+	x := lt{"0", 0}
+	if i >= 0 {
+		x = pr.lin(fn.Params[i])
+	}
+	y := pr.lin(fn.Params[j])
+	for _, b := range fn.Blocks {
+		ret, ok := b.Instrs[len(b.Instrs)-1].(*ssa.Return)
+		if !ok || len(ret.Results) != 1 {
+			continue
+		}
+		for _, gv := range retResults(ret)[0] {
+			var assume []dfact
+			if k, isC := gv.(*ssa.Const); isC && k.Value != nil {
+				if (k.Value.ExactString() == "true") != want {
+					continue
+				}
+			} else {
+				assume, _, _ = pr.condFacts(gv, !want)
+				// a && b, a || b handed back as a phi: the one way the wanted value can come about
+				fsx := &factSet{par: map[string]int{}}
+				pr.boolPhiFacts(gv, !want, fsx, 0)
+				assume = append(assume, fsx.fs...)
+			}
+			any = true
+			if !pr.ProveLEx(x, y, off, ret, assume) {
+				res = false
+			}
+		}
+	}
+	if res && any {
+		c.rgpMemo[key] = 1
+		return true
+	}
+	c.rgpMemo[key] = 2
+	return false
+}
+
+// lenBoundWhen: on every return of the boolean function fn that may hand back `want`, len(parameter j) >= bound (atLeast)
+// or <= bound. A returned comparison is assumed to have the wanted outcome; returns of the other constant are left out.
+func (c *C) lenBoundWhen(fn *ssa.Function, j int, bound int64, want bool, atLeast bool) bool {
+	if fn == nil || fn.Blocks == nil || calleeProofDepth >= 2 || fn.Signature.Results().Len() != 1 {
+		return false
+	}
+	if c.rgpMemo == nil {
+		c.rgpMemo = map[string]int{}
+	}
+	key := fmt.Sprintf("%s|len%d|%d|%v|%v", fn.String(), j, bound, want, atLeast)
+	switch c.rgpMemo[key] {
+	case 1:
+		return true
+	case 2, 3:
+		return false
+	}
+	c.rgpMemo[key] = 3
+	calleeProofDepth++
+	defer func() { calleeProofDepth-- }()
+	res, any := true, false
+	pr := c.newProver(fn)
+	ln := pr.lenOf(fn.Params[j])
+	for _, b := range fn.Blocks {
+		ret, ok := b.Instrs[len(b.Instrs)-1].(*ssa.Return)
+		if !ok || len(ret.Results) != 1 {
+			continue
+		}
+		for _, gv := range retResults(ret)[0] {
+			var assume []dfact
+			if k, isC := gv.(*ssa.Const); isC && k.Value != nil {
+				if (k.Value.ExactString() == "true") != want {
+					continue
+				}
+			} else {
+				assume, _, _ = pr.condFacts(gv, !want)
+				fsx := &factSet{par: map[string]int{}}
+				pr.boolPhiFacts(gv, !want, fsx, 0)
+				assume = append(assume, fsx.fs...)
+			}
+			any = true
+			if atLeast {
+				if !pr.ProveLEx(lt{"0", 0}, ln, -bound, ret, assume) {
+					res = false
+				}
+			} else if !pr.ProveLEx(ln, lt{"0", 0}, bound, ret, assume) {
+				res = false
+			}
+		}
+	}
+	if res && any {
+		c.rgpMemo[key] = 1
+		return true
+	}
+	c.rgpMemo[key] = 2
+	return false
 }
 
 // selectorResults: call is to a small first-party helper with one integer result that only ever hands back one of its own
@@ -4502,4 +4780,9 @@ func stableBool(v ssa.Value) (string, bool) {
 		}
 	}
 	return "", false
+}
+
+func isStringType(t types.Type) bool {
+	b, ok := t.Underlying().(*types.Basic)
+	return ok && b.Info()&types.IsString != 0
 }
